@@ -840,7 +840,12 @@ class KafkaClient(object):
             yield self.fetch_api_versions()
         if self._api_versions == 0:
             return 0
-        return int(self._api_versions[key].max_version)
+        # The broker may list the APIs in any order, and need not list every
+        # key, so look the entry up by its key rather than by its position.
+        for api_version in self._api_versions:
+            if api_version.api_key == key:
+                return int(api_version.max_version)
+        return 0
 
     def _handle_api_version_update(self, resp: ApiVersionResponse):
         """
